@@ -856,3 +856,99 @@ pub fn sample_ids(n: usize, salt: usize) -> Vec<usize> {
     }
     s.into_iter().collect()
 }
+
+
+/// Dense near misses at orders where threads, tiles and words matter: the
+/// complete digraph on n vertices minus one arc, minus one pair (both arcs),
+/// or a tournament with one pair doubled and another emptied; the special
+/// pair touches a row from {first, last, middle, (n-1)/2, chunk boundaries}.
+pub fn dense_near_miss() -> BoxedStrategy<(Dg, String)> {
+    (
+        prop_oneof![
+            3 => proptest::sample::select(vec![127_usize, 128, 129, 130, 131, 191, 192, 193, 255, 256, 257]),
+            1 => 128..=400_usize,
+        ],
+        0..4_u8,
+        any::<u16>(),
+        any::<u16>(),
+        1..=16_usize,
+        vec(any::<u16>(), 64),
+    )
+        .prop_map(|(n, kind, ru, rv, k, bits)| {
+            let chunk = n.div_ceil(k);
+            let specials = [0, 1, n / 2, (n - 1) / 2, n / 2 + 1, n - 2, n - 1, chunk.min(n - 1), chunk.saturating_sub(1), (2 * chunk).min(n - 1), n - 1 - (n % chunk.max(1))];
+            let u = if ru % 4 != 0 { specials[ru as usize % specials.len()] } else { idx(ru, n) };
+            let mut v = idx(rv, n);
+            if v == u {
+                v = (u + 1) % n;
+            }
+            let mut a: BTreeSet<(usize, usize)> = BTreeSet::new();
+            let name;
+            match kind {
+                0 | 1 => {
+                    for x in 0..n {
+                        for y in 0..n {
+                            if x != y {
+                                a.insert((x, y));
+                            }
+                        }
+                    }
+                    a.remove(&(u, v));
+                    if kind == 1 {
+                        a.remove(&(v, u));
+                        name = "complete-minus-pair";
+                    } else {
+                        name = "complete-minus-arc";
+                    }
+                }
+                2 => {
+                    // semicomplete: a tournament plus many reverse arcs, one pair emptied
+                    for x in 0..n {
+                        for y in x + 1..n {
+                            let b = bits[(x * 7 + y) % bits.len()] >> ((x + y) % 13);
+                            if b & 1 == 1 {
+                                a.insert((x, y));
+                            } else {
+                                a.insert((y, x));
+                            }
+                            if b & 6 != 0 {
+                                a.insert((x, y));
+                                a.insert((y, x));
+                            }
+                        }
+                    }
+                    a.remove(&(u, v));
+                    a.remove(&(v, u));
+                    name = "semicomplete-minus-pair";
+                }
+                _ => {
+                    for x in 0..n {
+                        for y in x + 1..n {
+                            if bits[(x * 5 + y) % bits.len()] >> ((x + y) % 11) & 1 == 1 {
+                                a.insert((x, y));
+                            } else {
+                                a.insert((y, x));
+                            }
+                        }
+                    }
+                    // size-preserving non-tournament: (u,v) doubled, another pair emptied
+                    a.insert((u, v));
+                    a.insert((v, u));
+                    let (p, q) = ((u + 2) % n, (v + 3) % n);
+                    if p != q && (p, q) != (u, v) && (p, q) != (v, u) {
+                        a.remove(&(p, q));
+                        a.remove(&(q, p));
+                    }
+                    name = "tournament-swap";
+                }
+            }
+            (
+                Dg {
+                    order: n,
+                    arcs: a.into_iter().collect(),
+                },
+                format!("dense:{name}"),
+            )
+        })
+        .boxed()
+}
